@@ -223,7 +223,13 @@ macro_rules! impl_derivatives {
 
             #[inline]
             fn atan2(&self, other: Self) -> Self {
-                let mut res = (self / other.clone()).atan();
+                // d atan2(y, x) = d atan(y / x) = -d atan(x / y): divide by the larger real part, so
+                // that the derivatives stay finite on the y axis (x = 0)
+                let mut res = if self.re().abs() > other.re().abs() {
+                    -(other.clone() / self).atan()
+                } else {
+                    (self / other.clone()).atan()
+                };
                 res.re = self.re.atan2(other.re);
                 res
             }
